@@ -51,6 +51,11 @@ CLAIMED = {
          "the right shape (volumes proved positive) or raises ValueError (Cartesian n_o<3: QhullError allowed). Sizes are enumerated, so the solver's "
          "share is small here (stub values only) -- said plainly in DESIGN; the failing mechanisms are in molgri's Python dispatch, which the run reaches. "
          "Counterexamples are replayed through the public API with real Qhull.", "§5 C19"),
+ "C10": ("For molecules of 1-2 + 1-4 atoms and 1-4 frames (thorough 3 + 6 atoms, 6 frames), ALL real atom positions, positive masses and an "
+         "ARBITRARY symbolic grid array (any positions, any non-zero quaternions): one frame per row in row order, atom order molecule 1 then 2, "
+         "molecule 1 unchanged, every atom of molecule 2 at R(q_k)(x0 - c0) + c0 + p_k (so COM at c0 + p_k), the caller's universes untouched; "
+         ">= 2 frames exposes state carried between frames. R(q) is proved orthogonal with det 1 for all q != 0 (distance preservation). "
+         "TwoMoleculeWriter._center_both_molecules proved to be a pure translation putting both COMs at the origin.", "§5 C10"),
 }
 NA = {
  "C03": "Claim is that Qhull's SphericalVoronoi regions/areas are the true nearest-neighbour cells: compiled geometry with no encodable source; a stub would assume the property (the symmetric assembly around it is verified under C04).",
